@@ -67,6 +67,9 @@ def main():
     names = sorted(os.path.basename(p) for p in glob.glob(os.path.join(VERIF, 'seeded', '*')) if os.path.isdir(p))
     if prefixes:
         names = [n for n in names if any(n.startswith(p) for p in prefixes)]
+    only = os.environ.get('SEED_PROPS')          # e.g. SEED_PROPS=C01,C06: only the changes recorded for these properties
+    if only:
+        names = [n for n in names if any(('%s-' % q_) in n for q_ in only.split(','))]
     lanes = [(i, names[i::par]) for i in range(par)]
     with ThreadPoolExecutor(par) as ex:
         out = [r for rs in ex.map(work, lanes) for r in rs]
